@@ -7,6 +7,8 @@ import (
 	"context"
 	"fmt"
 	"sort"
+	"strconv"
+	"strings"
 	"time"
 
 	resourcetypes "github.com/projecteru2/core/resource/types"
@@ -268,6 +270,43 @@ func (e *Env) Exec(sc *Scenario, b *Built, opID string, watchdog time.Duration) 
 						me["newid"] = m.Create.WorkloadID
 					}
 					out = append(out, me)
+				}
+				ret["closed"] = true
+			}
+		case "lambda":
+			e.Eng.mu.Lock()
+			e.Eng.B = Behaviour{Output: "line one\nline two\n", LogsErr: op.Delta == "logserr", WaitErr: op.Delta == "waiterr", AttachErr: op.Delta == "attacherr"}
+			if op.Delta == "exit3" {
+				e.Eng.B.ExitCode = 3
+			}
+			e.Eng.mu.Unlock()
+			opts := e.deployOpts(op.App, "p1", op.Nodes, "AUTO", op.Count, 0, op.Req)
+			opts.OpenStdin = op.Stdin
+			inCh := make(chan []byte)
+			close(inCh)
+			ids, ch, err := e.Cal.RunAndWait(ctx, opts, inCh)
+			fail(err)
+			ret["ids"] = ids
+			if err == nil {
+				for m := range ch {
+					typ := "stdout"
+					switch m.StdStreamType {
+					case coretypes.EruError:
+						typ = "error"
+					case coretypes.Stderr:
+						typ = "stderr"
+					}
+					data := string(m.Data)
+					code := -1
+					if strings.HasPrefix(data, "[exitcode] ") {
+						if c, err := strconv.Atoi(strings.TrimPrefix(data, "[exitcode] ")); err == nil {
+							code = c
+						}
+					}
+					if len(data) > 60 {
+						data = data[:60]
+					}
+					out = append(out, Event{"ev": "Msg", "op": opID, "kind": "lambda", "id": m.WorkloadID, "stream": typ, "exit": code >= 0, "code": code, "class": "ok", "data": data})
 				}
 				ret["closed"] = true
 			}
